@@ -18,6 +18,7 @@ from typing import TYPE_CHECKING
 
 import jax
 import jax.numpy as jnp
+import numpy as np
 from beartype.typing import overload
 from jax import api_util
 from jax import core as jc
@@ -266,6 +267,11 @@ def get_shaped_aval(x):
 @lu.cache
 def cached_stage_dynamic(flat_fun, in_avals):
     jaxpr, _, consts = pe.trace_to_jaxpr_dynamic(flat_fun, in_avals)
+    # Array literals written in the traced function come back as NumPy arrays.
+    # The interpreters feed constants straight to callees, so without this they
+    # reach generative functions (and end up as trace leaves) as `np.ndarray`
+    # when interpreting eagerly, but as JAX arrays under `jit`.
+    consts = [jnp.asarray(c) if isinstance(c, np.ndarray) else c for c in consts]
     typed_jaxpr = ClosedJaxpr(jaxpr, consts)
     return typed_jaxpr
 
